@@ -33,7 +33,7 @@ SHARDS = {"quick": 4, "thorough": 16}
 #   R5: vacancyThermoKinetics.__ne__ raises NameError            -> '!=' is not evaluated on vacancyThermoKinetics pools
 #   R6: vacancyThermoKinetics equal under allclose, hash on bytes -> no near-equal (<= 4 ulp) vacancyThermoKinetics items
 # C36_INCLUDE_R5=1 / C36_INCLUDE_R6=1 in the environment switch an exclusion off (used to re-find the defect).
-EXCLUDE_R5 = os.environ.get("C36_INCLUDE_R5") is None
+EXCLUDE_R5 = False  # R5 fixed in /repo (f9d813a)
 EXCLUDE_R6 = os.environ.get("C36_INCLUDE_R6") is None
 
 FAR = [1e-3, -1e-3, 0.01, -0.01, 0.25, 1.0]
